@@ -1,6 +1,7 @@
 package main
 
 import (
+	"strconv"
 	"fmt"
 	"go/ast"
 	"go/constant"
@@ -86,6 +87,7 @@ type Engine struct {
 	loopDepth    int
 	lastAnyArgs  []Value
 	published    map[string]bool // locally allocated objects that have been sent on a stream
+	trackAlloc   bool            // the contract under verification talks about freshness: allocations are numbered
 	globalErrs   map[string]*Term
 	extraStreams []*Term
 }
@@ -686,6 +688,17 @@ func constTerm(v constant.Value, typ types.Type, e *Engine) (Value, bool) {
 		if !ok {
 			return nil, false
 		}
+		// a constant that go/types has already rounded to float64 (a named constant such as 0.8 used at type float64)
+		// denotes the shortest decimal that rounds to it, like a literal does: arithmetic is over the reals
+		if b, isB := typ.Underlying().(*types.Basic); isB && b.Info()&types.IsFloat != 0 && b.Info()&types.IsUntyped == 0 {
+			if f, exact := constant.Float64Val(v); exact || true {
+				if d, ok := new(big.Rat).SetString(strconv.FormatFloat(f, 'g', -1, 64)); ok {
+					if back, _ := d.Float64(); back == f {
+						r = d
+					}
+				}
+			}
+		}
 		if s == SInt {
 			if r.IsInt() {
 				return VTerm{T: mkBigInt(r.Num()), Typ: typ}, true
@@ -1104,6 +1117,7 @@ func (e *Engine) evalComposite(cl *ast.CompositeLit, st *State) Value {
 		ref := e.fresh("obj_"+typeShort(t), SRef)
 		e.localRefs[ref.String()] = true
 		e.dynType[ref.String()] = types.NewPointer(t)
+		e.noteAlloc(st, ref)
 		if dn := dynTypeName(t); dn != "" {
 			st.assume(mkEq(mkApp("dyntype", SInt, ref), typeTag(dn)))
 		}
@@ -1192,4 +1206,31 @@ func typeShort(t types.Type) string {
 		return n.Obj().Name()
 	}
 	return "anon"
+}
+
+// allocation numbering (only when the contract under verification mentions fresh()): every allocation gets the next
+// number of the ghost counter @alloc; a call through a contract advances the counter by an unknown non-negative
+// amount; fresh(x) says x was numbered during the call. Objects numbered in disjoint intervals are distinct.
+func (e *Engine) allocCounter(st *State) *Term {
+	return st.getMem("@alloc", mkConst("alloc0", SInt))
+}
+
+func (e *Engine) noteAlloc(st *State, ref *Term) {
+	if !e.trackAlloc {
+		return
+	}
+	c := e.allocCounter(st)
+	st.assume(mkEq(mkApp("alloc_id", SInt, ref), c))
+	st.assume(mkNot(mkEq(ref, mkConst("nil", SRef))))
+	st.mem["@alloc"] = mkArith("+", c, mkInt(1))
+}
+
+func (e *Engine) advanceAlloc(st *State) {
+	if !e.trackAlloc {
+		return
+	}
+	c := e.allocCounter(st)
+	n := e.fresh("alloc", SInt)
+	st.assume(mkCmp("<=", c, n))
+	st.mem["@alloc"] = n
 }
